@@ -441,6 +441,38 @@ class SymExec:
                 self.write(st, dest, r)
                 snap = (("refv", self.read(st, args[0][1])), args[1])
                 return {"k": "call", "name": name, "args": snap, "locargs": args, "term": r, "inlined": True, "ret": r, "site": site, "dest": dest, "elem_access": True}
+        # mem::replace(&mut x, v) / mem::take(&mut x) / mem::swap(&mut a, &mut b): exact
+        if name in ("std::mem::replace", "core::mem::replace") and len(args) == 2 and args[0][0] == "ref":
+            old = self.read(st, args[0][1])
+            self.write(st, args[0][1], args[1])
+            dest = self.place_loc(st, t["dest"])
+            self.write(st, dest, old)
+            return {"k": "call", "name": name, "args": (("mutref", 0), args[1]), "locargs": args, "term": old, "inlined": True, "ret": old, "site": site, "dest": dest}
+        if name in ("std::mem::take", "core::mem::take") and len(args) == 1 and args[0][0] == "ref":
+            old = self.read(st, args[0][1])
+            self.write(st, args[0][1], ("call", "std::default::Default::default", (), site))
+            dest = self.place_loc(st, t["dest"])
+            self.write(st, dest, old)
+            return {"k": "call", "name": name, "args": (("mutref", 0),), "locargs": args, "term": old, "inlined": True, "ret": old, "site": site, "dest": dest}
+        if name in ("std::mem::swap", "core::mem::swap") and len(args) == 2 and args[0][0] == "ref" and args[1][0] == "ref":
+            a_, b_ = self.read(st, args[0][1]), self.read(st, args[1][1])
+            self.write(st, args[0][1], b_)
+            self.write(st, args[1][1], a_)
+            dest = self.place_loc(st, t["dest"])
+            self.write(st, dest, ("zst", "()"))
+            return {"k": "call", "name": name, "args": (("mutref", 0), ("mutref", 1)), "locargs": args, "term": ("zst", "()"), "inlined": True, "ret": ("zst", "()"), "site": site, "dest": dest}
+        # core::array::from_fn(|i| f(i)): the array [f(0), f(1), .. f(N-1)] when f is a pure closure
+        if name in ("std::array::from_fn", "core::array::from_fn") and len(args) == 1 and args[0][0] == "agg" and args[0][1] == "closure":
+            n_ = None
+            for a_ in t.get("resolved_args", []):
+                if "const" in a_ and a_.get("val") is not None:
+                    n_ = int(a_["val"])
+            elems = self.from_fn_elems(st, args[0], n_, site) if n_ is not None and n_ <= 512 else None
+            if elems is not None:
+                v = ("agg", "array", None, None, tuple(elems))
+                dest = self.place_loc(st, t["dest"])
+                self.write(st, dest, v)
+                return {"k": "call", "name": name, "args": args, "locargs": args, "term": v, "inlined": True, "ret": v, "site": site, "dest": dest, "from_fn": (args[0][2], n_)}
         local = (bool(t.get("resolved_local")) or name in self.fb.bodies) and name in self.fb.bodies
         dest = self.place_loc(st, t["dest"])
         # in the recorded call term a reference argument is snapshotted to the pointee's value
@@ -490,6 +522,41 @@ class SymExec:
                         self.write(st, L, ("after", callterm, i, self.read(st, L)))
         self.write(st, dest, callterm)
         return {"k": "call", "name": name, "args": snap, "locargs": args, "term": callterm, "inlined": False, "ret": callterm, "site": site, "dest": dest}
+
+    def from_fn_elems(self, st, cl, n, site):
+        """values f(0) .. f(n-1) of a closure aggregate `cl` that neither mutates its captures
+        nor loops; branches on the index are decided per index (pruned variants)"""
+        path = cl[2]
+        b = self.fb.body(path)
+        if b is None or path in self.eng._stack:
+            return None
+        by_ref = b.local_ty(1) is not None and b.local_ty(1).k == "ref"
+        env = ("refv", cl) if by_ref else cl
+        base = self.eng.summary(path)
+        if base is None or not base.ok or base.ret is None or base.effects:
+            return None
+        out = []
+        for i in range(n):
+            args = (env, ("int", i, "usize"))
+            summ = base
+            if any(x[0] == "phi" for x in walk(base.ret)):
+                # decide the switches of the body for this index
+                keep = {}
+                sub = Subst(self, st, args, site)
+                for bb, info in base.se.term_info.items():
+                    if info.get("k") != "switch":
+                        continue
+                    d = fold_consts(sub.value(info["discr"]))
+                    if d[0] != "int":
+                        return None
+                    tg = dict(info["targets"])
+                    keep[bb] = tg.get(d[1], info["otherwise"])
+                vn = self.fb.pruned(path, "at%d" % i, keep)
+                summ = self.eng.summary(vn) if vn else None
+                if summ is None or not summ.ok or summ.ret is None or summ.effects or any(x[0] == "phi" for x in walk(summ.ret)):
+                    return None
+            out.append(fold_consts(Subst(self, st, args, site).value(summ.ret)))
+        return out
 
     def loc_array_len(self, loc):
         """length of the fixed-size array stored at a location (by type), else None"""
@@ -721,6 +788,78 @@ def walk(t):
                     for y in x:
                         if isinstance(y, tuple) and y and isinstance(y[0], str):
                             yield from walk(y)
+
+
+_BITS = {"u8": 8, "u16": 16, "u32": 32, "u64": 64, "usize": 64, "u128": 128}
+
+
+def fold_consts(t):
+    """fold integer arithmetic on constants (unsigned types; a checked operation that would
+    overflow is left alone)"""
+    if not isinstance(t, tuple) or not t or not isinstance(t[0], str):
+        return t
+    k = t[0]
+    if k == "binop":
+        a, b = fold_consts(t[2]), fold_consts(t[3])
+        op = t[1]
+        if a[0] == "int" and b[0] == "int":
+            ty = a[2] if len(a) > 2 else None
+            bits = _BITS.get(ty)
+            base = op.replace("WithOverflow", "").replace("Unchecked", "")
+            x, y = a[1], b[1]
+            r = None
+            if base == "Add":
+                r = x + y
+            elif base == "Sub":
+                r = x - y
+            elif base == "Mul":
+                r = x * y
+            elif base == "Div" and y:
+                r = x // y
+            elif base == "Rem" and y:
+                r = x % y
+            elif base == "BitAnd":
+                r = x & y
+            elif base == "BitOr":
+                r = x | y
+            elif base == "BitXor":
+                r = x ^ y
+            elif base == "Shl" and bits and 0 <= y < bits:
+                r = (x << y) & ((1 << bits) - 1)
+            elif base == "Shr" and bits and 0 <= y < bits:
+                r = x >> y
+            elif base in ("Lt", "Le", "Gt", "Ge", "Eq", "Ne"):
+                r = int({"Lt": x < y, "Le": x <= y, "Gt": x > y, "Ge": x >= y, "Eq": x == y, "Ne": x != y}[base])
+                return ("int", r, "bool")
+            if r is not None and bits and 0 <= r < (1 << bits):
+                if op.endswith("WithOverflow"):
+                    return ("agg", "tuple", None, None, (("int", r, ty), ("int", 0, "bool")))
+                return ("int", r, ty)
+        return ("binop", op, a, b)
+    if k == "field":
+        inner = fold_consts(t[1])
+        if inner[0] == "agg" and inner[1] == "tuple" and isinstance(t[2], int) and t[2] < len(inner[4]):
+            return inner[4][t[2]]
+        return ("field", inner) + t[2:]
+    if k == "cast":
+        inner = fold_consts(t[2])
+        if inner[0] == "int" and t[1] == "IntToInt" and t[3] in _BITS and inner[1] >= 0:
+            return ("int", inner[1] & ((1 << _BITS[t[3]]) - 1), t[3])
+        return ("cast", t[1], inner) + t[3:]
+    if k == "unop":
+        inner = fold_consts(t[2])
+        if t[1] == "Not" and inner[0] == "int" and len(inner) > 2 and inner[2] == "bool":
+            return ("int", 1 - inner[1], "bool")
+        return ("unop", t[1], inner)
+    if k == "index":
+        return ("index", fold_consts(t[1]), fold_consts(t[2]))
+    if k == "call":
+        return ("call", t[1], tuple(fold_consts(a) for a in t[2]), t[3])
+    if k == "agg":
+        return ("agg", t[1], t[2], t[3], tuple(fold_consts(a) for a in t[4]))
+    if k in ("ref", "refv", "deref"):
+        return (k, fold_consts(t[1])) + t[2:]
+    return t
 
 
 def const_int(t):
